@@ -26,7 +26,8 @@ from .. import reuselib
 
 INEXACT = ["scale(a)", "scale(a, ddof=0)", "center(a) + scale(b)", "poly(a, 2)", "poly(a, 3):A", "bs(a, df=4)", "bs(a, df=5, degree=2, include_intercept=True)",
            "cr(a, df=3)", "cc(a, df=3)", "cr(a, df=4, constraints='center')", "C(A, contr.poly)", "C(A, contr.diff) + scale(a)", "C(A, contr.helmert(scale=True)):b",
-           "standardize(a)", "bs(a, df=4):A", "np.log(b) + exp2(a)", "I(a * b) + {a + 1}", "lag(a) + a"]
+           "standardize(a)", "bs(a, df=4):A", "np.log(b) + exp2(a)", "I(a * b) + {a + 1}", "lag(a) + a",
+           "I(scale(a) * scale(a))", "I(poly(a, 1) + poly(a, 1))", "I(scale(a) * scale(b)) + scale(a)", "I(center(scale(a)) - scale(a))"]
 NOT_ROW_LOCAL = {"lag(a) + a"}   # lag is defined across rows: excluded by the property
 
 
@@ -75,7 +76,7 @@ def session_record(job):
 
 
 def run(ctx: Ctx) -> None:
-    ctx.rule = ("exact leg: 3 training frames x 6 follow-up frames x 9 formulas x every row sequence of length <= MaxSel over the follow-up rows, spec and "
+    ctx.rule = ("exact leg: 3 training frames x 10 follow-up frames x 11 formulas (incl. one stateful call used twice inside one python factor) x every row sequence of length <= MaxSel over the follow-up rows, spec and "
                 "pickled spec, two entry points; relation leg: 18 formulas over the inexact built-in transforms x random histories; non-trivial = "
                 "row sequence with a duplicate or a reordering")
     ctx.trusted = ["gamma/alpha of the materializer family", "numpy.allclose(rtol=atol=1e-9) as the row-equality predicate of the relation leg", "TLC"]
